@@ -1385,6 +1385,10 @@ func (v *VMValue) SetSlice(ctx *Context, a, b, step IntType, val *VMValue) bool 
 	}
 
 	offset := len(arr2.List) - int(_b-_a)
+	// 分片赋值可以让数组成倍增长(x[0:0] = x)，按新数组的长度计入算力
+	if !ctx.chargeStringLength(16 * (len(arr.List) + offset)) {
+		return false
+	}
 	newArr := make([]*VMValue, len(arr.List)+offset)
 
 	for i := IntType(0); i < _a; i++ {
